@@ -53,40 +53,42 @@ def _const_table(crate, t):
 
 
 def match_find(fn, tb, rb, rt, conds):
-    """idiom: TABLE.iter().find(|row| row.key OP k) -> Some(row) => row.col, None => unreachable!()"""
+    """idiom: TABLE.iter()[.map(..)].find(|row| row.key OP k)[.map(..)] unwrapped (match Some / unwrap_or_else(unreachable))"""
+    from .. import seqs
     crate = fn.crate
-    FIND = ("call", V("f", lambda x: isinstance(x, str) and x.endswith("Iterator::find")), (V("src"), V("clo")))
-    m = match(("field", ("deref", ("field", ("variant", FIND, "Some"), 0)), V("vc")), rt)
-    if m is None:
+    pf = seqs.parse_first(crate, rt)
+    if pf is None or not pf.get("unwrapped"):
         return None
-    src, rev = _strip_iter(m["src"])
-    if src[0] != "slice":
+    IX = seqs.IX
+    N = seqs._N
+    cnt = N(pf["count"])
+    if cnt[0] != "len":
         return None
-    tab = _const_table(crate, src[1])
-    clo = m["clo"]
-    if tab is None or clo[0] != "agg" or not clo[1].startswith("closure:"):
+    tab = _const_table(crate, cnt[1])
+    if tab is None:
         return None
-    g = crate.fns.get(clo[1][len("closure:"):])
-    if g is None:
-        return None
-    body = terms.TermBuilder(g).return_term()
-    # closure(&mut self, item: &&row): row field vs a captured reference to the argument
-    row = ("deref", ("deref", ("param", 2)))
-    mb = match(("op", V("op"), ("field", row, V("kc")), ("deref", ("field", ("deref", ("param", 1)), V("cap")))), body)
+    ROW = ("index", seqs._strip_refs(cnt[1]), IX)
+
+    def rowify(x):
+        # references to the row and the row itself are the same thing for field reads
+        return terms.simplify(terms.map_term(x, lambda y: y[1] if y[0] in ("ref", "deref", "deref*") else y))
+    cond = rowify(N(pf["cond"]))
+    res = rowify(N(pf["result"]))
+    ROWR = rowify(ROW)
+    mb = match(("op", V("op"), ("field", ROWR, V("kc")), ("param", V("p"))), cond)
     flip = False
     if mb is None:
-        mb = match(("op", V("op"), ("deref", ("field", ("deref", ("param", 1)), V("cap"))), ("field", row, V("kc"))), body)
+        mb = match(("op", V("op"), ("param", V("p")), ("field", ROWR, V("kc"))), cond)
         flip = True
-    if mb is None or not isinstance(mb["cap"], int) or mb["cap"] >= len(clo[2]):
-        return None
-    cap = clo[2][mb["cap"]]
-    while cap[0] == "ref":
-        cap = cap[1]
-    if cap[0] != "param":
+    if mb is None:
         return None
     op = mb["op"]
     if flip:
         op = {"Lt": "Gt", "Le": "Ge", "Gt": "Lt", "Ge": "Le"}.get(op, op)
+    mv = match(("field", ROWR, V("vc")), res)
+    whole = res == ROWR
+    if mv is None and not whole:
+        return None
     guard = None
     for c, truth in conds:
         for pat, flipg in ((("op", V("op"), ("param", V("p")), ("const", V("c"))), False),
@@ -99,9 +101,14 @@ def match_find(fn, tb, rb, rt, conds):
                 if o in ("Le", "Lt"):
                     guard = {"param": e["p"], "op": o, "bound": e["c"]}
     rows = tab[1]
-    return {"fn": fn.key, "guard": guard, "rev": rev, "ret": rt, "cond": body, "return_block": rb, "kind": "table",
-            "table": tab[0], "key_col": mb["kc"], "op": op, "param": cap[1], "val_col": m["vc"],
-            "keys": [r[mb["kc"]] for r in rows], "vals": [r[m["vc"]] for r in rows], "rows": len(rows), "idiom": "find"}
+    out = {"fn": fn.key, "guard": guard, "rev": False, "ret": rt, "cond": cond, "return_block": rb, "kind": "table",
+           "table": tab[0], "key_col": mb["kc"], "op": op, "param": mb["p"], "keys": [r[mb["kc"]] for r in rows],
+           "rows": len(rows), "idiom": "find"}
+    if whole:
+        out.update(val_col=None, vals=None, table_rows=rows)
+    else:
+        out.update(val_col=mv["vc"], vals=[r[mv["vc"]] for r in rows])
+    return out
 
 
 def match_scan(fn):
